@@ -286,5 +286,133 @@ theorem count_good_band {lo hi : FV} (hlo : Good lo) (hhi : Good hi) :
         apply count_congr; intro k _; simp [draw]
       rw [h1, count_band hlo.1 hhi.1]
 
+/-! ### closeness of the share to the declared probability -/
+
+theorem bands_hi_eq (c : FV) (ts : List Trans) : ∀ b ∈ bands c ts, b.hi = add f32 b.lo b.p := by
+  induction ts generalizing c with
+  | nil => intro b hb; simp [bands] at hb
+  | cons t ts ih =>
+    intro b hb
+    rcases List.mem_cons.mp hb with rfl | hb
+    · rfl
+    · exact ih _ b hb
+
+theorem bands_p_mem (c : FV) (ts : List Trans) : ∀ b ∈ bands c ts, ∃ t ∈ ts, b.p = val32 t.prob ∧ b.target = t.target := by
+  induction ts generalizing c with
+  | nil => intro b hb; simp [bands] at hb
+  | cons t ts ih =>
+    intro b hb
+    rcases List.mem_cons.mp hb with rfl | hb
+    · exact ⟨t, List.mem_cons_self, rfl, rfl⟩
+    · obtain ⟨t', ht', h⟩ := ih _ b hb
+      exact ⟨t', List.mem_cons_of_mem _ ht', h⟩
+
+theorem mono_band_le_total {c : FV} {ts : List Trans} (h : Mono c ts) :
+    ∀ b ∈ bands c ts, le b.hi (total c ts) = true := by
+  induction ts generalizing c with
+  | nil => intro b hb; simp [bands] at hb
+  | cons t ts ih =>
+    intro b hb
+    obtain ⟨h1, h2⟩ := h
+    have hc' : add f32 c (val32 t.prob) ≠ .nan := by intro e; rw [e] at h1; simp at h1
+    rcases List.mem_cons.mp hb with rfl | hb
+    · exact mono_total h2 hc'
+    · exact ih h2 b hb
+
+theorem rep_two : Rep 24 (-149) 2 := ⟨1, 1, by decide, by decide, by simp [pow2_eq_zpow]⟩
+
+theorem ceilN_bounds {q : ℚ} (h0 : 0 ≤ q) (h1 : q ≤ 1) :
+    q * (N : ℚ) ≤ (ceilN (.fin q) : ℚ) ∧ (ceilN (.fin q) : ℚ) < q * (N : ℚ) + 1 := by
+  simp only [ceilN]
+  have hc0 : (0 : Int) ≤ (q * (N : ℚ)).ceil := by
+    rw [ceil_eq]; exact Int.ceil_nonneg (mul_nonneg h0 N_pos.le)
+  have hcN : (q * (N : ℚ)).ceil ≤ (N : Int) := by
+    rw [ceil_eq]; apply Int.ceil_le.mpr
+    have : q * (N : ℚ) ≤ 1 * (N : ℚ) := mul_le_mul_of_nonneg_right h1 N_pos.le
+    simpa using this
+  have hmin : min N (q * (N : ℚ)).ceil.toNat = (q * (N : ℚ)).ceil.toNat := by
+    apply Nat.min_eq_right; omega
+  rw [hmin]
+  have hcast : (((q * (N : ℚ)).ceil.toNat : Nat) : ℚ) = (((q * (N : ℚ)).ceil : Int) : ℚ) := by
+    have : (((q * (N : ℚ)).ceil.toNat : Nat) : Int) = (q * (N : ℚ)).ceil := Int.toNat_of_nonneg hc0
+    exact_mod_cast congrArg (fun z : Int => (z : ℚ)) this
+  rw [hcast, ceil_eq]
+  exact ⟨Int.le_ceil _, Int.ceil_lt_add_one _⟩
+
+/-- the share of a band differs from the declared probability by less than the resolution of
+    the draw (`2^-23`) plus one f32 rounding of a sum below 2 (`2^-24`) -/
+theorem band_share_close {lo hi p : FV} (hlo : Good lo) (hp : C12.Prob p) (hhi : hi = add f32 lo p)
+    {c : ℚ} (hc : hi = .fin c) (hc1 : c ≤ 1) :
+    ∃ pq : ℚ, p = .fin pq ∧
+      |(((ceilN hi - ceilN lo : Nat)) : ℚ) / (N : ℚ) - pq| < 1 / 2 ^ 23 + 1 / 2 ^ 24 := by
+  rcases p with _ | _ | pq
+  · exact hp.elim
+  · exact hp.elim
+  obtain ⟨hpq0, hpq1⟩ := hp
+  refine ⟨pq, rfl, ?_⟩
+  rcases lo with _ | s | a
+  · exact hlo.elim
+  · simp only [Good] at hlo; subst hlo
+    rw [hhi] at hc; simp [add] at hc
+  obtain ⟨ha0, harep, halt⟩ := hlo
+  -- hi = round (a + pq) = fin c
+  have hround : f32.round (a + pq) = .fin c := by rw [← hc, hhi]; rfl
+  obtain ⟨hceq, _, _⟩ := Fmt.round_fin_bound f32 hround
+  have hsum_pos : 0 < a + pq := by linarith
+  -- a ≤ c
+  have hac : a ≤ c := by
+    rw [hceq]
+    exact le_rne_of_rep_le 24 (by decide) (-149) harep (by linarith)
+  -- a + pq < 2, otherwise c ≥ 2
+  have hlt2 : a + pq < 2 := by
+    by_contra hge
+    have : (2 : ℚ) ≤ rne 24 (-149) (a + pq) := le_rne_of_rep_le 24 (by decide) (-149) rep_two (not_lt.mp hge)
+    have h2 : (2 : ℚ) ≤ c := by rw [hceq]; exact this
+    linarith
+  have hexpo : expo 24 (-149) (a + pq) ≤ -23 := by
+    have h1 : ilog2 (a + pq) < 1 := ilog2_lt_of_lt_pow2 hsum_pos (by simpa [pow2_eq_zpow] using hlt2)
+    unfold expo; omega
+  have herr : |c - (a + pq)| ≤ 1 / 2 ^ 24 := by
+    have h := rne_err_pos 24 (-149) hsum_pos
+    have h2 : pow2 (expo 24 (-149) (a + pq)) ≤ pow2 (-23) := pow2_le_pow2 hexpo
+    have h3 : pow2 (-23) / 2 = 1 / 2 ^ 24 := by rw [pow2_eq_zpow, zpow_neg]; norm_num
+    have h4 : f32.p = 24 := rfl
+    have h5 : f32.emin = -149 := rfl
+    rw [h4, h5] at hceq
+    rw [hceq]
+    calc |rne 24 (-149) (a + pq) - (a + pq)| ≤ pow2 (expo 24 (-149) (a + pq)) / 2 := h
+      _ ≤ pow2 (-23) / 2 := by linarith
+      _ = 1 / 2 ^ 24 := h3
+  have hc0 : 0 ≤ c := le_trans ha0 hac
+  have ha1 : a ≤ 1 := le_trans hac hc1
+  obtain ⟨hc_lo, hc_hi⟩ := ceilN_bounds hc0 hc1
+  obtain ⟨ha_lo, ha_hi⟩ := ceilN_bounds ha0 ha1
+  have hmono : ceilN (.fin a) ≤ ceilN (.fin c) := by
+    -- ⌈aN⌉ ≤ ⌈cN⌉
+    simp only [ceilN]
+    have : (a * (N : ℚ)).ceil ≤ (c * (N : ℚ)).ceil := by
+      rw [ceil_eq, ceil_eq]
+      exact Int.ceil_le_ceil (mul_le_mul_of_nonneg_right hac N_pos.le)
+    omega
+  rw [hc]
+  have hsub : (((ceilN (.fin c) - ceilN (.fin a) : Nat)) : ℚ) = (ceilN (.fin c) : ℚ) - (ceilN (.fin a) : ℚ) := by
+    exact Nat.cast_sub hmono
+  rw [hsub]
+  have hN : (N : ℚ) = 2 ^ 23 := by unfold N; norm_num
+  have hNpos := N_pos
+  rw [abs_le] at herr
+  have h23 : (1 : ℚ) / 2 ^ 23 = 1 / (N : ℚ) := by rw [hN]
+  rw [h23]
+  have hmul : ∀ x : ℚ, (x + 1 / (N : ℚ)) * (N : ℚ) = x * (N : ℚ) + 1 := by
+    intro x; field_simp
+  have hmul' : ∀ x : ℚ, (x - 1 / (N : ℚ)) * (N : ℚ) = x * (N : ℚ) - 1 := by
+    intro x; field_simp
+  have hD1 : ((ceilN (.fin c) : ℚ) - (ceilN (.fin a) : ℚ)) / (N : ℚ) < (c - a) + 1 / (N : ℚ) := by
+    rw [div_lt_iff₀ hNpos, hmul]; nlinarith
+  have hD2 : (c - a) - 1 / (N : ℚ) < ((ceilN (.fin c) : ℚ) - (ceilN (.fin a) : ℚ)) / (N : ℚ) := by
+    rw [lt_div_iff₀ hNpos, hmul']; nlinarith
+  rw [abs_lt]
+  constructor <;> linarith [herr.1, herr.2]
+
 end C06
 end Mb
